@@ -33,6 +33,18 @@ every check (`LenaModel/Gen/C20Facts.lean`).  What is modelled:
   afresh by the next import); `resolvesAllEnvs` runs the whole check in every environment of
   `Facts.envs`.
 
+* **handlers**: a `NameError`, an `AttributeError` on a lena module or an `ImportError` for a lena
+  name that happens inside a `try` whose handler catches it (mask of `tryExcept`) runs the
+  handler and is not a failure (`try: unicode / except NameError:`); uncaught, it is the result
+  of the code.  Only handlers of the code that raises are looked at (not the importer's).
+* **aliases**: `x = name.a.b` where `x` is bound by nothing else (`flow_mod = lena.flow`) binds `x`
+  to what the chain denotes, so that `flow_mod.get_data_context` is followed like `lena.flow.…`.
+* **static facts about classes**: the `class` statements with their bases, the `raise` statements
+  that name a class, and the reads of locals that CPython cannot prove bound (`exceptionsOk`,
+  `localsOk`).
+* *not* modelled: ordinary locals, values stored in attributes or containers, the behaviour of
+  elements (what a call returns), functions called while their own module is being imported.
+
 Identifiers are interned by the translator: `Name` and `ModId` are natural numbers; names below
 `Facts.nBuiltins` are `dir(builtins)`.  The interpreter state (all module `__dict__`s and
 `sys.modules`) is kept in two natural numbers used as arrays of fixed-width slots
